@@ -7,6 +7,7 @@ def run(tier, seed):
     t0 = time.time()
     from contracts.finfields import C22_NATIVES
     tasks = [('lib.native', 'run_natives', ('contracts.finfields', [n], tier)) for n in C22_NATIVES]
+    tasks += [('vc.tasks', 'run_contract', ('contracts.finfields_a', a, 'contracts.finfields:intviews_prime', tier)) for a in ('c_signed_', 'c_unsigned_')]
     obs = run_tasks(tasks)
     return finish('C22', tier, seed, obs, 'other', t0,
                   explanation='bounded contract evaluation on the real to_bytes/from_bytes, pickle round trip (all protocols) and __int__/signed_/unsigned_: '
